@@ -241,7 +241,9 @@ def execute(scenario: dict) -> dict:
         # "value type unsupported by the backend" is a listed stage: the TypeError of the value type
         # dispatch counts (and must be collected), other non-Sigma exceptions do not
         return "unloadable" not in a and ("ok" in a or a.get("sigma") or a.get("exc") == "NotImplementedError"
-                                          or (a.get("exc") == "TypeError" and "Unexpected value type" in str(a.get("msg"))))
+                                          or (a.get("exc") == "TypeError" and "Unexpected value type" in str(a.get("msg")))
+                                          # a timestamp part the backend's table does not know (same stage)
+                                          or "TimestampPart" in str(a.get("msg")))
 
     keep = [i for i, a in enumerate(alone) if _listed(a)]
     dropped = sum(1 for a in alone if "unloadable" in a)
